@@ -42,7 +42,7 @@ func checkC18(c *Check, a *Anchors) {
 	c18AtomicCounter(c, a)
 	c18CapturedWrites(c, a)
 	definitionsReadOnly(c, a, "definitions-read-only")
-	atomicSection(c, a.Dedup, PkgTask, "Executor", "executionHashes", "executionHashesMutex", "execution-table-locked", "every read and write of Executor.executionHashes in the dedup function happens under executionHashesMutex, lookup and registration in one critical section")
+	dedupAtomic(c, a, "execution-table-locked")
 	atomicSection(c, a.HandleDynamicVar, PkgTask, "Compiler", "dynamicCache", "muDynamicCache", "dynamic-cache-locked", "every read and write of Compiler.dynamicCache happens under muDynamicCache")
 	c17PrefixUnderLock(c, a)
 	sharedWait(c, a) // the recorded outcome is written before the completion signal (happens-before for the waiters' read)
